@@ -40,6 +40,11 @@ BOUND = BOUND32 + [255, 256, 65535, 65536]
 SIZES = [0, 1, 9, MAXP - 1, MAXP, MAXP + 1, MAXP + 15, MAXP + 16, MAXP + 17, 2 * MAXP - 1, 2 * MAXP, 2 * MAXP + 1,
          2 * MAXP + 16, 2 * MAXP + 17, 3 * MAXP, 3 * MAXP + 1]
 IN_RANGE = range(0, 2**32)
+# subprotocol names that are valid Unicode but NOT in NFC (nor NFKC): decomposed letters, compatibility
+# singletons (KELVIN / ANGSTROM / OHM SIGN), conjoining Hangul jamo, a mix, and marks in non-canonical order.
+# The codec must carry them code point for code point.
+NON_NFC = ["e\u0301", "A\u030a", "\u212a", "\u212b", "\u2126", "\u1112\u1161\u11ab", "\u1100\u1161",
+           "caf\u00e9-cafe\u0301-\u212b\u1112\u1161", "q\u0323\u0307", "q\u0307\u0323", "\u0344", "\ufb01\u2460"]
 
 
 def rec_in_range(spec):
@@ -95,7 +100,7 @@ def rand_rec(rng, wide=False):
     if k in ("ping", "pong"):
         return [k, bytes(rng.randrange(256) for _ in range(4)).hex()]
     if k == "open":
-        name = rng.choice(["", "a", "proto", "é", "名前", "x" * 40, "\U0001f600z"])
+        name = rng.choice(["", "a", "proto", "é", "名前", "x" * 40, "\U0001f600z"] + NON_NFC)
         return ["open", num(), num(), name.encode("utf8").hex()]
     if k == "data":
         n = rng.choice([0, 1, 2, 9, 100])
@@ -120,6 +125,13 @@ def cases(rng, tier):
         out.append(dict(kind="conn", relay=bool(i % 24), leader=bool(i % 36), recs=bcodec[i:i + 12],
                         chunk=["all", "rand", "frames", "one"][(i // 12) % 4], select_after=[0, 1, 99][(i // 12) % 3],
                         mut=None, mseed=i))
+    # corpus: subprotocol names that are not NFC-normalised, through a whole connection (both roles) and the codec
+    nfc = [["open", i, 2 * i + 1, x.encode("utf8").hex()] for i, x in enumerate(NON_NFC)]
+    for ld in (True, False):
+        out.append(dict(kind="conn", relay=not ld, leader=ld, recs=nfc, chunk="rand" if ld else "frames",
+                        select_after=1, mut=None, mseed=7))
+    for r in nfc:
+        out.append(dict(kind="codec", rec=r))
     # … then through the codec alone
     for r in bcodec:
         out.append(dict(kind="codec", rec=r))
@@ -136,6 +148,26 @@ def cases(rng, tier):
                                       dict(lq=[["close", 3, 1]], fq=[], ll=[], fl=[])],
                     chunks=[5, 1000, 70000], turn_each_chunk=False, mseed=3))
     out.append(dict(kind="sel", gens=[dict(lq=[], fq=[], ll=[], fl=[])], chunks=[3], turn_each_chunk=True, mseed=4))
+    # corpus: several candidate connections per generation, all built by the real Connector's factories (a direct
+    # link dialled by one side and accepted by the other's listener, a delayed relay link dialled by both); the
+    # later candidate's two connectionMade calls land at every point of the first candidate's handshake
+    g2 = dict(lq=q2, fq=[["open", 0, 3, ""]], ll=[["close", 2, 1]], fl=[["data", 1, 3, "ff"]])
+    for sl in range(7):
+        for sf in range(7):
+            out.append(dict(kind="sel", gens=[dict(g2, links=[dict(relay=False, dial="LF"[(sl + sf) % 2], start=[0, 0]),
+                                                              dict(relay=True, dial="L", start=[sl, sf])])],
+                            chunks=[10**6], turn_each_chunk=True, mseed=sl * 7 + sf))
+    for st in range(24):
+        out.append(dict(kind="sel", gens=[dict(g2, links=[dict(relay=bool(st % 2), dial="F", start=[0, 0]),
+                                                          dict(relay=False, dial="LF"[st % 2], start=[st, st + st % 3])])],
+                        chunks=[20], turn_each_chunk=bool(st % 2), mseed=st))
+    for st in range(6):
+        out.append(dict(kind="sel", gens=[dict(g2, links=[dict(relay=True, dial="L", start=[st, st]),
+                                                          dict(relay=False, dial="L", start=[0, 1]),
+                                                          dict(relay=False, dial="F", start=[2, st])]),
+                                          dict(g2, links=[dict(relay=False, dial="F", start=[0, 0]),
+                                                          dict(relay=True, dial="L", start=[5 - st, st])])],
+                        chunks=[5, 1000, 70000], turn_each_chunk=False, mseed=st))
     for _ in range(8):
         out.append(rand_sel_case(rng))
     # corpus: every size boundary of the Noise packet split, for sealing (real send_record vs model, and the
@@ -245,6 +277,12 @@ def run_case(case):
             exp.append(back)
             if back != show_rec(r):
                 viol.append(("codec-roundtrip", f"parse(encode({show_rec(r)})) = {back}"))
+            elif isinstance(r, Open):
+                # the name itself, code point by code point
+                got_name = parse_record(bytes.fromhex(e)).subprotocol
+                if [ord(ch) for ch in got_name] != [ord(ch) for ch in r.subprotocol]:
+                    viol.append(("codec-roundtrip", f"Open.subprotocol {[hex(ord(ch)) for ch in r.subprotocol]} came back "
+                                 f"as {[hex(ord(ch)) for ch in got_name]}"))
         else:
             tags.append("codec:" + e)
         if any(isinstance(v, int) and v in BOUND32 for v in spec[1:]):
@@ -688,34 +726,129 @@ def run_framer(case):
 # given the connection.  `Connector.add_candidate -> consider -> (eventual turn) -> accept ->
 # select_and_stop_remaining` runs for real on both sides, for the first and for later generations.
 
+class SessionNoise(ToyNoise):
+    """ToyNoise with the session state of a real Noise object: `start_handshake()` begins a NEW session
+    (handshake progress and both nonces are reset, as NoiseConnection.start_handshake re-initialises the
+    HandshakeState), messages may only be written/read in the order of the NN pattern, and the transport
+    cipher exists only once the handshake is complete.  Used one-object-per-protocol (as build_protocol does)
+    it behaves exactly like ToyNoise; sharing one object between two protocols breaks the earlier session."""
+
+    def __init__(self):
+        ToyNoise.__init__(self)
+        self.initiator = None
+        self.started = self.wrote = self.read = False
+
+    def start_handshake(self):
+        self.started, self.wrote, self.read = True, False, False
+        self.tx = self.rx = 0
+
+    def write_message(self):
+        from wormhole._dilation._noise import NoiseHandshakeError
+        if not self.started or self.wrote or (self.initiator is False and not self.read):
+            raise NoiseHandshakeError("write_message out of turn")
+        self.wrote = True
+        return self.HS
+
+    def read_message(self, frame_):
+        from wormhole._dilation._noise import NoiseHandshakeError, NoiseInvalidMessage
+        if not self.started or self.read or (self.initiator is True and not self.wrote):
+            raise NoiseHandshakeError("read_message out of turn")
+        if frame_ != self.HS:
+            raise NoiseInvalidMessage("bad handshake")
+        self.read = True
+        return b""
+
+    def encrypt(self, m):
+        from wormhole._dilation._noise import NoiseHandshakeError
+        if not (self.wrote and self.read):
+            raise NoiseHandshakeError("no transport cipher: handshake not complete")
+        return ToyNoise.encrypt(self, m)
+
+    def decrypt(self, c):
+        from wormhole._dilation._noise import NoiseInvalidMessage
+        if not (self.wrote and self.read):
+            raise NoiseInvalidMessage("no transport cipher: handshake not complete")
+        return ToyNoise.decrypt(self, c)
+
+
 class _SelSide:
+    """one peer in one generation: a real Connector and the manager stand-in"""
+
     def __init__(self, role, clock, gen, queued):
         from wormhole._dilation import connector as dco
         from wormhole.eventual import EventualQueue
         self.role = role
         self.leader = role is LEADER
+        self.name = "leader" if self.leader else "follower"
         self.eq = EventualQueue(clock)
-        self.queued = queued                  # records waiting for a connection (specs already built)
+        self.queued = queued                  # records waiting for a connection
         self.got = []                         # manager.got_record calls
-        self.handed = []                      # every record given to this side's L2 connection, in order
-        self.wire = []                        # the bytes each of them produced (or an exception name)
         self.conn = None                      # set by connector_connection_made
-        self.events = []                      # what the driver is asked to replay for this receiver
-        self.dead = None
-        self.lost = 0
+        self.ends = []
         self.mgr = mock.Mock()
         alsoProvides(self.mgr, IDilationManager)
         self.mgr.got_record = self.got.append
         self.mgr.connector_connection_made = self._connection_made
         self.connector = dco.Connector(b"k" * 32, None, self.mgr, clock, self.eq, True, None, None,
                                        ("%016x" % (gen * 2 + (1 if self.leader else 0))), role)
-        self.p = self.connector.build_protocol(None, "desc")
+
+    def _connection_made(self, c):
+        self.conn = c
+        for r in self.queued:                 # Outbound.use_connection: re-send everything un-acked, at once
+            c.send_record(r)
+
+    def winner(self):
+        for e in self.ends:
+            if e.p is self.conn:
+                return e
+        return None
+
+    def turn(self):
+        before = [(e, automat_state(e.p, 'm')) for e in self.ends if e.started]
+        self.eq.flush_sync()
+        for e, st in before:
+            if st != "selected" and automat_state(e.p, 'm') == "selected":
+                e.events.append(("select", None, e.summary()))
+
+
+class _SelEnd:
+    """one end of one candidate connection, built the way the Connector's factories build it"""
+
+    def __init__(self, side, link_no, relay, outbound, start):
+        from wormhole._dilation import connector as dco
+        from twisted.internet.address import IPv4Address
+        self.side, self.link_no, self.relay, self.start_tick = side, link_no, relay, start
+        addr = IPv4Address("TCP", "10.0.0.%d" % (link_no + 1), 4000 + link_no)
+        if relay:
+            hs = dco.build_sided_relay_handshake(side.connector._dilation_key, side.connector._side)
+            self.p = dco.OutboundConnectionFactory(side.connector, hs, "relay%d" % link_no).buildProtocol(addr)
+        elif outbound:
+            self.p = dco.OutboundConnectionFactory(side.connector, None, "direct%d" % link_no).buildProtocol(addr)
+        else:
+            self.p = dco.InboundConnectionFactory(side.connector).buildProtocol(addr)
+        self.outbound = relay or outbound
         self.t = FakeTransport()
         self.p.transport = self.t
-        self.taken = 0                        # how many of t.written have been moved to the peer
+        self.taken = 0                        # how many of t.written have been moved on
+        self.inbox = []                       # chunks on their way to this end
+        self.handed, self.wire, self.events = [], [], []
+        self.started = False
+        self.dead = None
+        self.closed = False
+        side.ends.append(self)
 
     def start(self):
-        self.p.connectionMade()
+        self.started = True
+        if self.outbound:                     # what Connector._connect's callback does with a new outbound protocol
+            pc = self.side.connector._pending_connections
+            pc.add(self.p)
+            self.p.when_disconnected().addCallback(pc.discard)
+        try:
+            self.p.connectionMade()
+        except Exception as e:
+            self.dead = type(e).__name__
+            self.events.append(("made", None, self.dead))
+            return
         rec = self.p._record
         orig = rec.send_record
 
@@ -730,24 +863,18 @@ class _SelSide:
                 raise
         rec.send_record = logged
 
-    def _connection_made(self, c):
-        self.conn = c
-        for r in self.queued:                 # Outbound.use_connection: re-send everything un-acked, at once
-            c.send_record(r)
-
     def summary(self):
         p, t = self.p, self.t
         fr = p._record._framer
         hs = frame(b"hs") in t.written
-        kcm = (not self.leader) and frame(b"\x00" + bytes([1]) * 16) in t.written
+        kcm = (not self.side.leader) and frame(b"\x00" + bytes([1]) * 16) in t.written
         st = automat_state(p, 'm')
+        got = self.side.got if self.side.connector._winning_connection is p else []
         return (f"{automat_state(fr, 'm')} {automat_state(p._record, 'n')} {st} buf={len(fr._buffer)} "
                 f"hs={'true' if hs else 'false'} kcm={'true' if kcm else 'false'} cand={'false' if st == 'unselected' else 'true'} "
-                f"queued={len(p._inbound_record_queue)} mgr=[{'; '.join(show_rec(r) for r in self.got)}]")
+                f"queued={len(p._inbound_record_queue)} mgr=[{'; '.join(show_rec(r) for r in got)}]")
 
     def receive(self, chunk):
-        if self.dead:
-            return
         lost_before = self.t.lost
         try:
             self.p.dataReceived(chunk)
@@ -757,17 +884,12 @@ class _SelSide:
             self.dead = type(e).__name__
         self.events.append(("data", chunk, (self.dead + " " if self.dead else "") + self.summary()))
 
-    def turn(self):
-        before = automat_state(self.p, 'm')
-        self.eq.flush_sync()
-        if before != "selected" and automat_state(self.p, 'm') == "selected":
-            self.events.append(("select", None, self.summary()))
-
 
 def run_sel(case):
     import random
     from twisted.internet.task import Clock
     from wormhole._dilation import connector as dco
+    from wormhole._dilation.connector import PROLOGUE_LEADER, PROLOGUE_FOLLOWER
     rng = random.Random(case["mseed"])
     lines, exp, viol, tags = [], [], [], ["sel:gens=%d" % len(case["gens"])]
 
@@ -783,81 +905,144 @@ def run_sel(case):
             i += n
         return out
 
-    with mock.patch.object(dco, "build_noise", ToyNoise):
+    with mock.patch.object(dco, "build_noise", SessionNoise):
         for gi, g in enumerate(case["gens"]):
             clock = Clock()
-            sides = {}
-            for role, q in ((LEADER, g["lq"]), (FOLLOWER, g["fq"])):
-                sides[role] = _SelSide(role, clock, gi, [mk_rec(expand_rec(sp)) for sp in q])
-            L, F = sides[LEADER], sides[FOLLOWER]
-            L.start()
-            F.start()
+            L = _SelSide(LEADER, clock, gi, [mk_rec(expand_rec(sp)) for sp in g["lq"]])
+            F = _SelSide(FOLLOWER, clock, gi, [mk_rec(expand_rec(sp)) for sp in g["fq"]])
+            # candidate connections: (leader end, follower end); a direct link is dialled by one side and
+            # accepted by the other's listener, a relay link is dialled by both
+            links = []
+            for k, ld in enumerate(g.get("links") or [dict(relay=False, dial="L", start=[0, 0])]):
+                links.append((_SelEnd(L, k, ld["relay"], ld["dial"] == "L", ld["start"][0]),
+                              _SelEnd(F, k, ld["relay"], ld["dial"] == "F", ld["start"][1])))
+            tags.append("sel:cands=%d" % len(links))
+            if any(ld["relay"] for ld in g.get("links") or []):
+                tags.append("sel:relay")
+            tick = [0]
+            relay_ok_sent = set()
 
-            def shuttle():
-                busy = True
-                while busy:
-                    busy = False
-                    for X, Y in ((L, F), (F, L)):
+            def close(k):
+                for e in links[k]:
+                    if e.started and not e.closed:
+                        e.closed = True
+                        try:
+                            e.p.connectionLost(None)
+                        except Exception:
+                            pass
+                    e.closed = True
+                    e.inbox = []
+
+            def collect():
+                moved = False
+                for k, (a, b) in enumerate(links):
+                    if a.closed:
+                        continue
+                    for X, Y in ((a, b), (b, a)):
+                        if X.relay and X.taken == 0 and X.t.written:
+                            X.taken = 1               # "please relay … for side …": consumed by the relay
                         data = b"".join(X.t.written[X.taken:])
                         X.taken = len(X.t.written)
                         if data:
-                            busy = True
-                            for c in split(data):
-                                Y.receive(c)
-                                if case["turn_each_chunk"]:
-                                    Y.turn()
-                    for X in (L, F):
-                        X.turn()
-                        if len(X.t.written) > X.taken:
-                            busy = True
-            shuttle()
+                            Y.inbox.extend(split(data))
+                            moved = True
+                    if a.relay and a.started and b.started and k not in relay_ok_sent:
+                        relay_ok_sent.add(k)          # the relay pairs the two sides up
+                        a.inbox.insert(0, b"ok\n")
+                        b.inbox.insert(0, b"ok\n")
+                        moved = True
+                return moved
+
+            def run_until_quiet():
+                last_start = max(e.start_tick for lk in links for e in lk)
+                idle = 0
+                while idle < 2 or tick[0] <= last_start:
+                    for lk in links:
+                        for e in lk:
+                            if not e.started and not e.closed and e.start_tick <= tick[0]:
+                                e.start()
+                    progressed = collect()
+                    ready = [e for lk in links for e in lk if e.inbox and e.started and not e.closed]
+                    if ready:
+                        e = ready[tick[0] % len(ready)]
+                        e.receive(e.inbox.pop(0))
+                        progressed = True
+                        if case["turn_each_chunk"] or not any(x.inbox for lk in links for x in lk):
+                            L.turn()
+                            F.turn()
+                    else:
+                        L.turn()
+                        F.turn()
+                    for k, (a, b) in enumerate(links):
+                        if not a.closed and (a.dead or b.dead or a.t.lost or b.t.lost):
+                            collect()                 # what was written before the close still travels
+                            close(k)
+                            L.turn()
+                            F.turn()
+                            progressed = True
+                    progressed = collect() or progressed
+                    idle = 0 if progressed else idle + 1
+                    tick[0] += 1
+
+            run_until_quiet()
             # records written once the connection is in use
             for X, later in ((L, g["ll"]), (F, g["fl"])):
                 for sp in later:
-                    if X.conn is not None and not X.dead:
+                    w = X.winner()
+                    if w is not None and not w.dead and not w.closed:
                         try:
                             X.conn.send_record(mk_rec(expand_rec(sp)))
                         except Exception:
-                            pass               # recorded in X.wire; judged below
-            shuttle()
+                            pass               # recorded in the end's `wire`; judged below
+            run_until_quiet()
             if L.queued:
                 tags.append("sel:leader-backlog")
             if F.queued:
                 tags.append("sel:follower-backlog")
-            # ---- model lines: each direction is one receiving connection fed by the sender's records
-            from wormhole._dilation.connector import PROLOGUE_LEADER, PROLOGUE_FOLLOWER
-            for X, Y in ((L, F), (F, L)):
-                inbound = PROLOGUE_LEADER if X.leader else PROLOGUE_FOLLOWER
-                lines.append(f"new 0 {1 if Y.leader else 0} {hx(inbound)}")
-                exp.append("ok")
-                for r, w in zip(X.handed, X.wire):
-                    lines.append("send " + show_rec(r))
-                    exp.append(hx(w) if isinstance(w, bytes) else w)
-                for kind, chunk, summ in Y.events:
-                    lines.append("select" if kind == "select" else "data " + hx(chunk))
-                    exp.append(summ)
+            # ---- model lines: every end of every candidate is one receiving connection fed by its peer end
+            for a, b in links:
+                for X, Y in ((a, b), (b, a)):
+                    inbound = PROLOGUE_LEADER if X.side.leader else PROLOGUE_FOLLOWER
+                    lines.append(f"new {1 if Y.relay else 0} {1 if Y.side.leader else 0} {hx(inbound)}")
+                    exp.append("ok")
+                    for r, w in zip(X.handed, X.wire):
+                        lines.append("send " + show_rec(r))
+                        exp.append(hx(w) if isinstance(w, bytes) else w)
+                    for kind, chunk, summ in Y.events:
+                        if kind == "made":
+                            continue
+                        lines.append("select" if kind == "select" else "data " + hx(chunk))
+                        exp.append(summ)
             # ---- oracle: every record handed to an L2 connection is recovered identically by the peer
-            for X, Y, xn, yn in ((L, F, "leader", "follower"), (F, L, "follower", "leader")):
+            lw, fw = L.winner(), F.winner()
+            for X, Y, xw, yw in ((L, F, lw, fw), (F, L, fw, lw)):
+                xn, yn = X.name, Y.name
                 want = [show_rec(mk_rec(expand_rec(sp))) for sp in (g["lq"] + g["ll"] if X.leader else g["fq"] + g["fl"])]
-                handed = [show_rec(r) for r in X.handed if not isinstance(r, KCM)]
+                handed = [show_rec(r) for r in xw.handed if not isinstance(r, KCM)] if xw else []
                 gotp = [show_rec(r) for r in Y.got]
                 where = f"generation {gi + 1}, {xn}->{yn}"
-                if Y.dead or X.dead:
-                    viol.append(("lossless", f"{where}: honest peers, but the {yn if Y.dead else xn}'s connection died with "
-                                 f"{Y.dead or X.dead}; handed {brief(handed)} delivered {brief(gotp)}"))
-                elif X.conn is None:
-                    viol.append(("lossless", f"{where}: the {xn}'s connector never selected the connection"))
-                elif handed != want or any(not isinstance(w, bytes) for w in X.wire):
+                if xw is None:
+                    why = "; ".join(f"candidate {e.link_no}: {e.dead or ('closed' if e.closed else 'open')}" for e in X.ends)
+                    viol.append(("lossless", f"{where}: honest peers, but the {xn}'s connector never got a connection ({why})"))
+                elif xw.dead or xw.closed or yw is None or yw.dead or yw.closed or yw.link_no != xw.link_no:
+                    peer_end = next((e for e in Y.ends if e.link_no == xw.link_no), None)
+                    bad = next((e for e in (xw, peer_end, yw) if e is not None and e.dead), xw if xw.closed else yw)
+                    viol.append(("lossless", f"{where}: honest peers, the {xn} selected candidate {xw.link_no}, but "
+                                 + (f"the {bad.side.name}'s end of it was dropped ({bad.dead or 'closed'})" if bad is not None and
+                                    (bad.dead or bad.closed) else f"the {yn} selected {'none' if yw is None else yw.link_no}")
+                                 + f"; handed {brief(handed)} delivered {brief(gotp)}"))
+                elif handed != want or any(not isinstance(w, bytes) for w in xw.wire):
                     viol.append(("lossless", f"{where}: records {brief(want)} could not all be handed to the connection: {brief(handed)}"))
                 elif gotp != handed:
                     viol.append(("lossless", f"{where}: handed {brief(handed)} but the {yn}'s manager got {brief(gotp)}"))
-                elif [i for i, r in enumerate(X.handed) if isinstance(r, KCM)] != [0]:
+                elif [i for i, r in enumerate(xw.handed) if isinstance(r, KCM)] != [0]:
                     viol.append(("lossless", f"{where}: the {xn} did not confirm the connection with exactly one KCM, first: "
-                                 f"{brief([show_rec(r) for r in X.handed])}"))
+                                 f"{brief([show_rec(r) for r in xw.handed])}"))
             # the connection is lost; managers would start the next generation
+            for k in range(len(links)):
+                close(k)
             for X in (L, F):
                 try:
-                    X.p.connectionLost(None)
                     X.eq.flush_sync()
                 except Exception:
                     pass
@@ -877,7 +1062,7 @@ def rand_sel_case(rng):
             seq[side] += 1
             scid = rng.choice([1, 2, 3, 2**32 - 1])
             if k == "open":
-                out.append(["open", sn, scid, rng.choice(["", "70726f746f", "c3a9"])])
+                out.append(["open", sn, scid, rng.choice(["", "70726f746f", "c3a9"] + [x.encode("utf8").hex() for x in NON_NFC])])
             elif k == "data":
                 pay = "%%BIG%%%d" % (rng.choice(SIZES[3:9]) - 9) if big and rng.random() < 0.3 else \
                     bytes(rng.randrange(256) for _ in range(rng.choice([0, 1, 5, 40]))).hex()
@@ -887,7 +1072,11 @@ def rand_sel_case(rng):
         return out
     gens = []
     for gi in range(rng.choice([1, 2, 2, 3])):
-        gens.append(dict(lq=recs(0, rng.choice([0, 0, 1, 2, 4]), big=True), fq=recs(1, rng.choice([0, 0, 1, 3])),
+        links = [dict(relay=rng.random() < 0.3, dial=rng.choice("LF"), start=[rng.randrange(0, 8), rng.randrange(0, 8)])
+                 for _ in range(rng.choice([1, 1, 2, 2, 3]))]
+        first = rng.randrange(len(links))
+        links[first]["start"] = [0, rng.choice([0, 0, 1])]
+        gens.append(dict(links=links, lq=recs(0, rng.choice([0, 0, 1, 2, 4]), big=True), fq=recs(1, rng.choice([0, 0, 1, 3])),
                          ll=recs(0, rng.choice([0, 1, 3])) + ([["ack", rng.choice(BOUND32)]] if rng.random() < 0.3 else []),
                          fl=recs(1, rng.choice([0, 1, 2])) + ([["ping", "01020304"]] if rng.random() < 0.3 else [])))
     return dict(kind="sel", gens=gens, chunks=rng.choice([[1], [10**6], [1, 2, 3, 7, 50], [5, 1000, 70000], [17]]),
@@ -912,6 +1101,11 @@ def shrink(case):
         for i in range(len(gens)):
             if len(gens) > 1:
                 yield dict(case, gens=gens[:i] + gens[i + 1:])
+        for i, g in enumerate(gens):
+            lk = g.get("links") or []
+            for j in range(len(lk)):
+                if len(lk) > 1:
+                    yield dict(case, gens=gens[:i] + [dict(g, links=lk[:j] + lk[j + 1:])] + gens[i + 1:])
         for i, g in enumerate(gens):
             for key in ("ll", "fl", "fq", "lq"):
                 for j in range(len(g[key])):
